@@ -101,6 +101,8 @@ Definition dec_result (r : result) : result := (fst r, dec (snd r)).
 
 Definition success : result := (to_u8 Success, Normal).
 Definition u8 (n : nat) : status := Nat.modulo n 256.
+(** return_.rs / exit.rs: [(code & 0xFF) as u8] *)
+Definition low_byte (z : Z) : status := Z.to_nat (Z.land z 255).
 
 (** [Shell::apply_errexit_if_enabled] *)
 Definition apply_errexit (s : shell) (r : result) : result :=
@@ -118,13 +120,16 @@ Section Exec.
     | LMark k => Out success (emit (EMark k) w)
     | LStatus ok => Out (if ok then success else (to_u8 GeneralError, Normal)) w
     | LProbe => Out success (emit (EProbe (last (sh w))) w)
-    | LBreak n => Out (match n with O => (to_u8 InvalidUsage, Normal) | S k => (to_u8 Success, BreakLoop k) end) w
-    | LContinue n => Out (match n with O => (to_u8 InvalidUsage, Normal) | S k => (to_u8 Success, ContinueLoop k) end) w
+    (* break_.rs / continue_.rs: [which_loop: i8]; a count beyond 127 is rejected by the argument parser (status 2) *)
+    | LBreak n => Out (if Nat.ltb 127 n then (to_u8 InvalidUsage, Normal) else
+                       match n with O => (to_u8 InvalidUsage, Normal) | S k => (to_u8 Success, BreakLoop k) end) w
+    | LContinue n => Out (if Nat.ltb 127 n then (to_u8 InvalidUsage, Normal) else
+                          match n with O => (to_u8 InvalidUsage, Normal) | S k => (to_u8 Success, ContinueLoop k) end) w
     | LReturn a =>
-        let code := match a with Some n => u8 n | None => last (sh w) end in
+        let code := match a with Some n => low_byte n | None => last (sh w) end in
         Out (match fdepth (sh w) with O => (to_u8 InvalidUsage, Normal) | S _ => (code, ReturnFn) end) w
     | LExit a =>
-        let code := match a with Some n => u8 n | None => last (sh w) end in
+        let code := match a with Some n => low_byte n | None => last (sh w) end in
         Out (code, ExitShell) w
     | LSet o b => Out success (upd_sh (set_opt o b) w)
     | LAssign s =>
